@@ -33,10 +33,12 @@ def run(ctx):
     s = V.harness(ctx, ["so", "-in", beh, "-out", obs, "-seed", ctx.seed, "-sample", 0 if quick else 20000, "-workers", V.NCPU])
     viols, drifts, nl = V.leg_v(ctx, "SignOutTrace", "SignOutTrace.cfg", obs, strip=("conc",))
     handle(ctx, viols, obs)
+    from checks import sso
+    e2e = sso.leg(ctx)
     lines = open(obs).read().splitlines()
     ctx.cov["samples"].append([json.loads(x) for x in lines[:7]])
     posts = sum(1 for x in lines if '"ev":"apost"' in x or '"ev":"reuse"' in x)
-    ctx.cov["evaluations"] = s["lines"]
+    ctx.cov["evaluations"] = s["lines"] + e2e["lines"]
     ctx.cov["distinct_nontrivial"] = s["distinct"]
     ctx.cov["post_or_reuse_steps"] = posts
     ctx.cov["exhaustive"] = quick or s["executed"] == n
